@@ -5,6 +5,7 @@ import GB.C15.ProofsOnce
 import GB.C15.Agg
 import GB.C15.ProofsTimed
 import GB.C15.ProofsFair
+import GB.C15.ProofsFairEx
 import GB.Generated.Facts
 /-
   C15 — description updates are delivered exactly when the target's contract changes.
@@ -911,3 +912,16 @@ theorem C15_resolve_now_eventually_served (manual : Bool) (st : Nat → W) (lb :
   obtain ⟨m', rfl⟩ := Nat.le.dest (show k ≤ j' by omega)
   have hmem : Lbl.pollStart ∈ seg lb k m' := hj3 ▸ seg_mem lb m' k j hj1 (by omega)
   exact (core m').2.1 hmem
+
+/-- **The fairness hypotheses are satisfiable** — there is an infinite run of the timed system from the initial state
+    (interval polling on) that is fair to the poller, on which time diverges, `Close` is never called, the target keeps
+    presenting one contract and no poll fails; so `C15_polls_forever_on_fair_runs` and
+    `C15_persistent_change_eventually_delivered` are not vacuous, and on this run the contract is delivered for good. -/
+theorem C15_fair_run_exists :
+    ∃ (st : Nat → T) (lb : Nat → TL), IsRun st lb ∧ st 0 = T.init false 0 5 ∧ FairPoller st lb ∧ TimeDiverges lb ∧ NoClose lb ∧
+      (∀ j, (st j).target = 5) ∧ (∀ j, lb j ≠ .pollFail) ∧
+      ∃ k1, ∀ j, k1 ≤ j → (st j).delivered = some 5 := by
+  refine ⟨exSt, exLb, ex_isRun, rfl, ex_fair, ex_time, fun k => (ex_labels k).1, ex_target, fun k => (ex_labels k).2, ?_⟩
+  obtain ⟨k1, _, h⟩ := C15_persistent_change_eventually_delivered 0 5 exSt exLb ex_isRun rfl ex_fair ex_time
+    (fun k => (ex_labels k).1) 0 5 (fun j _ => ex_target j) (fun j _ => (ex_labels j).2)
+  exact ⟨k1, h⟩
